@@ -177,6 +177,10 @@ pub struct Func {
     /// `__attribute__((ms_abi))`: a second calling convention in the same library
     #[serde(default)]
     pub ms_abi: bool,
+    /// `__asm__("..")` on the declaration: 0 = `_<name>`, 1 = `lbl_<name>_x` (the symbol differs
+    /// from the C name; the library's definition inherits the label from the header)
+    #[serde(default)]
+    pub asm_label: Option<u8>,
 }
 
 #[derive(Clone, Debug, Serialize, Deserialize, PartialEq, Eq)]
@@ -506,16 +510,32 @@ impl Lib {
         }
         s.push_str(&format!("extern unsigned long long g_digest[{}];\nextern int g_static_int;\n", self.funcs.len().max(1)));
         for (k, (sc, is_const)) in self.globals.iter().enumerate() {
-            s.push_str(&format!("extern {}{} gv{k};\n{} read_gv{k}(void);\n", if *is_const { "const " } else { "" }, sc.c(), sc.c()));
+            if *is_const && k % 2 == 1 {
+                // the qualifier comes from a typedef
+                s.push_str(&format!("typedef const {} ctd{k}_t;\nextern ctd{k}_t gv{k};\n{} read_gv{k}(void);\n", sc.c(), sc.c()));
+            } else {
+                s.push_str(&format!("extern {}{} gv{k};\n{} read_gv{k}(void);\n", if *is_const { "const " } else { "" }, sc.c(), sc.c()));
+            }
         }
         for (k, (sc, two_d, is_const)) in self.garrays.iter().enumerate() {
-            s.push_str(&format!("extern {}{} ga{k}{};\n", if *is_const { "const " } else { "" }, sc.c(), if *two_d { "[2][3]" } else { "[4]" }));
+            if *is_const && k % 2 == 1 {
+                s.push_str(&format!("typedef const {} cta{k}_t{};\nextern cta{k}_t ga{k};\n", sc.c(), if *two_d { "[2][3]" } else { "[4]" }));
+            } else {
+                s.push_str(&format!("extern {}{} ga{k}{};\n", if *is_const { "const " } else { "" }, sc.c(), if *two_d { "[2][3]" } else { "[4]" }));
+            }
         }
         if self.defined_global {
             s.push_str("int g_defined = 3;\n");
         }
         for k in 0..self.funcs.len() {
             s.push_str(&self.proto(k));
+            match self.funcs[k].asm_label {
+                Some(l) if self.funcs[k].awkward_name.is_none() => {
+                    let n = self.fname(k);
+                    s.push_str(&if l % 2 == 0 { format!(" __asm__(\"_{n}\")") } else { format!(" __asm__(\"lbl_{n}_x\")") });
+                }
+                _ => {}
+            }
             s.push_str(";\n");
         }
         s.push_str("#endif\n");
@@ -568,8 +588,8 @@ pub fn lib_strategy() -> BoxedStrategy<Lib> {
         1 => Just(PTy::ConstCallback),
     ];
     let rty = prop_oneof![2 => Just(RTy::Void), 6 => sc.clone().prop_map(RTy::Sc), 4 => any::<u16>().prop_map(RTy::Struct), 1 => Just(RTy::Enum), 1 => Just(RTy::Ptr), 1 => Just(RTy::FnPtr)];
-    let func = (proptest::collection::vec(pty, 0..9), rty, proptest::option::weighted(0.12, 0u8..7), proptest::bool::weighted(0.03), proptest::option::weighted(0.12, any::<u8>()), proptest::bool::weighted(0.15), proptest::bool::weighted(0.15))
-        .prop_map(|(params, ret, variadic, noreturn, awkward_name, keyword_params, ms_abi)| Func { params, ret, variadic, noreturn, awkward_name, keyword_params, ms_abi });
+    let func = (proptest::collection::vec(pty, 0..9), rty, proptest::option::weighted(0.12, 0u8..7), proptest::bool::weighted(0.03), proptest::option::weighted(0.12, any::<u8>()), proptest::bool::weighted(0.15), proptest::bool::weighted(0.15), proptest::option::weighted(0.12, 0u8..2))
+        .prop_map(|(params, ret, variadic, noreturn, awkward_name, keyword_params, ms_abi, asm_label)| Func { params, ret, variadic, noreturn, awkward_name, keyword_params, ms_abi, asm_label });
     (proptest::collection::vec(sdef, 1..6), proptest::collection::vec(func, 1..16), proptest::collection::vec((sc.clone(), any::<bool>()), 0..5), proptest::collection::vec((sc, any::<bool>(), any::<bool>()), 0..3))
         .prop_map(|(structs, funcs, globals, garrays)| {
             let mut l = Lib { structs, funcs, globals, garrays, defined_global: false };
@@ -608,6 +628,13 @@ pub fn find_fn<'a>(inv: &'a Inventory, c_name: &str) -> Option<&'a Item> {
         .filter(|i| i.kind == "foreign_fn" || i.kind == "foreign_static")
         .find(|i| i.attrs.iter().any(|a| a.replace(' ', "").contains(&ln.replace(' ', "")) || a.replace(' ', "").contains(&ln2.replace(' ', ""))))
         .or_else(|| inv.items.iter().filter(|i| i.kind == "foreign_fn" || i.kind == "foreign_static").find(|i| i.name == c_name && !i.attrs.iter().any(|a| a.contains("link_name"))))
+        // a declaration with an asm label (`_<name>` / `lbl_<name>_x`): found by that link name or,
+        // when the label was lost, by its name (linking then decides whether the symbol is right)
+        .or_else(|| {
+            let labels = [format!("\\u{{1}}_{c_name}\""), format!("\\u{{1}}lbl_{c_name}_x\""), format!("\"_{c_name}\""), format!("\"lbl_{c_name}_x\"")];
+            inv.items.iter().filter(|i| i.kind == "foreign_fn" || i.kind == "foreign_static").find(|i| i.attrs.iter().any(|a| a.contains("link_name") && labels.iter().any(|l| a.replace(' ', "").ends_with(&format!("{l}]")))))
+        })
+        .or_else(|| inv.items.iter().filter(|i| i.kind == "foreign_fn" || i.kind == "foreign_static").find(|i| i.name == c_name))
 }
 
 fn type_name(inv: &Inventory, base: &str, is_union: bool) -> String {
